@@ -506,6 +506,91 @@ static void gather_scatter(Rng& rng)
         }
 }
 
+// ---------------------------------------------------------------- converting gather / scatter: memory type U, lane type T
+template <class T, class U>
+static void gather_scatter_convert(Rng& rng)
+{
+    using B = xs::batch<T, ARCH>;
+    using IT = xs::as_integer_t<T>;
+    using BI = xs::batch<IT, ARCH>;
+    constexpr size_t N = B::size;
+    static OpStat& sg = reg("C04", "gather_converting", (std::string(tname<U>()) + "_mem_" + tname<T>() + "_lanes").c_str());
+    static OpStat& sc = reg("C04", "scatter_converting", (std::string(tname<U>()) + "_mem_" + tname<T>() + "_lanes").c_str());
+    if (!sg.on && !sc.on)
+        return;
+    constexpr size_t M = N + 29;
+    alignas(64) U loc[M];
+    alignas(64) T src[N], o[N];
+    alignas(64) IT idx[N];
+    for (int where = 0; where < 2; ++where)
+        for (int pattern = 0; pattern < 5; ++pattern)
+        {
+            U* tab = where ? (U*)(AR.hi() - M * sizeof(U)) : (U*)AR.lo();
+            for (size_t k = 0; k < M; ++k)
+                loc[k] = (U)(int)(1000 + 3 * k); // exactly representable in every type involved, pairwise distinct
+            for (size_t i = 0; i < N; ++i)
+            {
+                src[i] = (T)(int)(50 + 7 * i);
+                idx[i] = pattern == 0 ? (IT)(rng.next() % M) : pattern == 1 ? (IT)((i * 7 + 3) % M) : pattern == 2 ? (IT)(M - 1 - i) : pattern == 3 ? (IT)(2 * i + 1 < M ? 2 * i + 1 : i) : (IT)i;
+            }
+            std::string wit = std::string("\"table\":\"") + (where ? "flush_upper_guard" : "flush_lower_guard") + "\",\"index\":" + hexarr(idx, N);
+            if (sg.on)
+            {
+                AR.fill(0x5a);
+                memcpy(tab, loc, sizeof loc);
+                mark_case("gather_converting", sg.type.c_str(), idx, sizeof idx);
+                sg.evals += N;
+                sg.cell((unsigned)(where * 8 + pattern));
+                bool ok = guarded(sg, wit, [&]
+                                  { B::gather(tab, BI::load_aligned(idx)).store_aligned(o); });
+                if (ok)
+                    for (size_t i = 0; i < N; ++i)
+                        if (!(o[i] == (T)loc[(size_t)idx[i]]))
+                        {
+                            viol(sg, "lane_mismatch", "{" + wit + ",\"lane\":" + std::to_string(i) + ",\"got\":\"" + hexv(o[i]) + "\",\"expected_element\":" + std::to_string((size_t)idx[i]) + "}");
+                            break;
+                        }
+            }
+            if (sc.on)
+            {
+                bool distinct = true;
+                for (size_t i = 0; i < N; ++i)
+                    for (size_t j = 0; j < i; ++j)
+                        if (idx[i] == idx[j])
+                            distinct = false;
+                if (!distinct)
+                    continue;
+                AR.fill(0xa5);
+                mark_case("scatter_converting", sc.type.c_str(), idx, sizeof idx);
+                sc.evals += N;
+                sc.cell((unsigned)(where * 8 + pattern));
+                B v = B::load_aligned(src);
+                bool ok = guarded(sc, wit, [&]
+                                  { v.scatter(tab, BI::load_aligned(idx)); });
+                if (ok)
+                {
+                    U canary;
+                    memset(&canary, 0xa5, sizeof canary);
+                    for (size_t k = 0; k < M; ++k)
+                    {
+                        bool hit = false;
+                        for (size_t i = 0; i < N; ++i)
+                            if ((size_t)idx[i] == k)
+                            {
+                                hit = true;
+                                if (!(tab[k] == (U)src[i]))
+                                    viol(sc, "element_mismatch", "{" + wit + ",\"element\":" + std::to_string(k) + "}");
+                            }
+                        if (!hit && !same_bits(tab[k], canary))
+                            viol(sc, "unindexed_element_modified", "{" + wit + ",\"element\":" + std::to_string(k) + "}");
+                    }
+                    if (AR.stray((unsigned char*)tab, M * sizeof(U), 0xa5))
+                        viol(sc, "byte_outside_range_modified", "{" + wit + "}");
+                }
+            }
+        }
+}
+
 // ---------------------------------------------------------------- broadcast, element-list constructor, get(i)
 template <class T, size_t... Is>
 static void ctor_list(const T* a, T* o, std::index_sequence<Is...>)
@@ -588,6 +673,15 @@ void vh::unit_main()
             gather_scatter<uint64_t>(rng);
             gather_scatter<float>(rng);
             gather_scatter<double>(rng);
+            gather_scatter_convert<float, double>(rng);
+            gather_scatter_convert<int32_t, double>(rng);
+            gather_scatter_convert<double, float>(rng);
+            gather_scatter_convert<double, int32_t>(rng);
+            gather_scatter_convert<float, int16_t>(rng);
+            gather_scatter_convert<int32_t, float>(rng);
+            gather_scatter_convert<int64_t, int32_t>(rng);
+            gather_scatter_convert<uint32_t, uint8_t>(rng);
+            gather_scatter_convert<int64_t, double>(rng);
             converting<int32_t, float>(rng);
             converting<float, int32_t>(rng);
             converting<int64_t, double>(rng);
